@@ -1,4 +1,5 @@
 pub mod alloc;
+pub mod binfmt;
 pub mod engine;
 pub mod fuzzentry;
 pub mod gen;
